@@ -526,12 +526,10 @@ func (c *FCtx) callContract(st *State, con *Contract, fi *FuncInfo, fn *types.Fu
 	}
 	// explicit refusals of the callee propagate
 	for _, pc := range con.Panics {
-		if pc.When == nil {
+		if pc.When == nil || !pc.When.visible(c.prop) {
+			// no (visible) condition: the callee may refuse at any time
 			ps := st.clone()
 			c.side = append(c.side, Flow{st: ps, kind: fPanic, msg: pc.Msg, pos: pos})
-			continue
-		}
-		if !pc.When.visible(c.prop) {
 			continue
 		}
 		cond := env.evalBool(pc.When.E)
